@@ -6,6 +6,9 @@ CONSTANTS
   WithRefresh = TRUE
   FixSessionWait = TRUE
   FixRefreshWait = FALSE
+  FixProcQuit = TRUE
+  NReq = 3
+  SessQCap = 1
   MaxRounds = 2
 INVARIANTS TypeOK NoStuckStop AfterStopAllReleased
 PROPERTIES StopReturns
